@@ -31,13 +31,21 @@ def plan(tier, seed):
     return [{"mode": "hdr", "seed": seed, "shard": i, "n": 60 if q else 700} for i in range(16)]
 
 
+# "whatever the names, e-mail and dates are": any one-column character that cannot end the comment or splice the line
+ANY_CHARS = [c for c in string.printable if c not in "/*\\?\t\n\r\x0b\x0c "] + ["\u00e9", "\u00fc", "\u6f22", "\x0c", "\x0b", "\x85", "\u2028",
+                                                                                   "\u2029", "\x1c", "\x1e", "\u00a0"]
+
+
 def rand_header(r, fname_shown=None):
-    login = "".join(r.choice(string.ascii_lowercase + string.digits + "_.-") for _ in range(r.randint(1, 12)))
-    dom = "".join(r.choice(string.ascii_lowercase) for _ in range(r.randint(2, 10))) + r.choice([".fr", ".com", ".42.fr", ".org"])
+    wild = r.random() < 0.3
+    alpha = ANY_CHARS if wild else string.ascii_lowercase + string.digits + "_.-"
+    login = "".join(r.choice(alpha) for _ in range(r.randint(1, 12)))
+    dom = "".join(r.choice(alpha if wild else string.ascii_lowercase) for _ in range(r.randint(2, 10))) + r.choice([".fr", ".com", ".42.fr", ".org"])
     mail = login + "@" + (r.choice(["student.42.fr", dom]))
     if fname_shown is None:
         n = r.randint(1, 60)
-        fname_shown = "".join(r.choice(string.ascii_letters + string.digits + "_.-") for _ in range(n - 2)) + r.choice([".c", ".h"])
+        fname_shown = "".join(r.choice(ANY_CHARS if wild else string.ascii_letters + string.digits + "_.-")
+                              for _ in range(n - 2)) + r.choice([".c", ".h"])
 
     def stamp():
         return "%04d/%02d/%02d %02d:%02d:%02d" % (r.randint(1970, 2099), r.randint(1, 12), r.randint(1, 31), r.randint(0, 23),
@@ -108,7 +116,11 @@ def run_shard(spec):
             sh.count("c13.body_not_analysed_skipped")
             continue
         h, login = rand_header(r)
-        src = "\n".join(h) + "\n\n" + body
+        # the body follows after an empty line, or begins with a comment right under the header
+        glue = ["\n", "\n", "\n", "/* about this file */\n\n", "/*\n** about\n** this file\n*/\n\n", "// about this file\n\n",
+                "/* a */\n/* b */\n// c\n\n"][k % 7]
+        sh.tally("body_starts", repr(glue.split("\n")[0][:2]))
+        src = "\n".join(h) + "\n" + glue + body
         pk = PREDECESSORS[k % len(PREDECESSORS)]
         run_predecessor(pk, r)
         sh.tally("predecessors", str(pk))
@@ -118,7 +130,7 @@ def run_shard(spec):
         sh.tally("cases", "template")
         if n != 0:
             sh.violation("valid_header_rejected", (str(n),), {"mode": "hdr", "name": name, "src": src, "expect": 0},
-                         {"count": n, "outcome": run.outcome, "header": h[3:9]})
+                         {"count": n, "outcome": run.outcome, "header": h[3:9], "body_starts_with": glue.split("\n")[0][:2]})
         sh.sample({"header_lines_4_6_8": [h[3], h[5], h[7]]}, cap=1)
         if k % 4 == 0 or spec["n"] > 100:
             for mname, hl in mutants(h, login):
